@@ -53,7 +53,7 @@ func runC19(r *Run) {
 	r.Floor("C19.R7", 8)
 	r.RuleDoc("C19.R9", "status.canary.replicaSet (the name validate and fail act on) is rewritten with the up-to-date replica set's name on every path that leaves status.canary set")
 	r.Floor("C19.R9", 2)
-	r.NotCovered("what the controller does in the following reconciles (C05/C07/C08 decide the reader side structurally); the 'already in that state' refusals (dropping one only makes the command rewrite the same value); how complete() fills the user's namespace/name; a pre-existing Canary-Failed condition with status False on the canary replica set (fail appends a second condition, the reader takes the first); concurrent changes between the Get and the write")
+	r.NotCovered("what the controller does in the following reconciles (C05/C07/C08 decide the reader side structurally); the 'already in that state' refusals (dropping one only makes the command rewrite the same value); a pre-existing Canary-Failed condition with status False on the canary replica set (fail appends a second condition, the reader takes the first); concurrent changes between the Get and the write")
 
 	pausedK := c19Const(r, "ExtendedDaemonSetCanaryPausedAnnotationKey")
 	unpausedK := c19Const(r, "ExtendedDaemonSetCanaryUnpausedAnnotationKey")
@@ -126,6 +126,7 @@ func runC19(r *Run) {
 	r.ImportFrom(runC06, map[string]string{"C06.R3": "C19.R8"}, map[string]string{
 		"C19.R8": "reader side of fail: the replica-set sync starts IsFailed from the persisted Canary-Failed condition (the one `canary fail` appends), never resets it, and rewrites the condition from it — a manual fail is not erased before the rollback"})
 	c19CanaryNameFresh(r, site, utd)
+	c19Wiring(r, cmds)
 }
 
 // c19CondWrite is what the fail command appends.
